@@ -408,7 +408,7 @@ def run_tree(ctx, tree, rng, thresholds, want_mutants=True):
 def run(ctx):
   dts = dtypes()
   ctx.extra['dtypes'] = [d.name for d in dts]
-  n = 220 if ctx.tier == 'quick' else 9000
+  n = 900 if ctx.tier == 'quick' else 12000
   all_th = [1, 2, 3, 7, 8, 64, 'default']
   for i in ctx.indices(n, 'tree'):
     rng = ctx.rng('tree', i)
